@@ -6,3 +6,100 @@ Example C19_model_smoke :
              (run (init_pool 2) [AcqPermit; AcqPermit; Pop; Pop; Freeze 0%nat; Clone 0%nat; PushBack 1%nat; DropRef 0%nat; RetPermit; PushBack 0%nat; RetPermit])
   = Some ([1; 0]%nat, 2%nat, 0%nat).
 Proof. vm_compute. reflexivity. Qed.
+
+(* ---- theorems (types pasted verbatim from Proofs/PoolProofs.v by tools/pin.py) ---- *)
+From NW Require Import Proofs.PoolProofs.
+
+Theorem C19_invariant_every_interleaving :
+  forall (sched : list mstep) (p p' : pool), PInv p -> run p sched = Some p' -> PInv p'.
+Proof. exact pinv_run. Qed.
+
+Theorem C19_no_underflow :
+  forall (n : nat) (sched : list mstep), run (init_pool n) sched <> None.
+Proof. exact run_never_panics. Qed.
+
+Theorem C19_conservation :
+  forall p : pool, PInv p -> (available_count p + in_use_count p)%nat = cap p.
+Proof. exact available_plus_in_use. Qed.
+
+Theorem C19_exclusive :
+  forall p p' : pool,
+    PInv p ->
+    step p Pop = SOk p' ->
+    exists i : bufid,
+      hlookup i (held p') = Some HMut /\
+      hlookup i (held p) = None /\ ~ In i (avail p') /\ avail p = i :: avail p'.
+Proof. exact exclusive_handout. Qed.
+
+Theorem C19_mut_unshared :
+  forall (p : pool) (i : bufid),
+    PInv p ->
+    hlookup i (held p) = Some HMut ->
+    (forall h : hstate, In (i, h) (held p) -> h = HMut) /\
+    count_occ Nat.eq_dec (map fst (held p)) i = 1%nat /\ ~ In i (avail p).
+Proof. exact mut_is_unshared. Qed.
+
+Theorem C19_frozen_bytes_constant :
+  forall (sched : list mstep) (p p' : pool) (i : bufid),
+    PInv p ->
+    frozen i p ->
+    ~ In (PushBack i) sched ->
+    ~ In (BatchUnwrap i) sched ->
+    run p sched = Some p' -> frozen i p' /\ clookup i (contents p') = clookup i (contents p).
+Proof. exact frozen_bytes_constant_until_returned. Qed.
+
+Theorem C19_write_needs_mut :
+  forall (p : pool) (i : bufid) (b : list N) (p' : pool),
+    step p (Write i b) = SOk p' -> hlookup i (held p) = Some HMut.
+Proof. exact write_needs_mut. Qed.
+
+Theorem C19_all_returned :
+  forall (n : nat) (sched : list mstep) (p : pool),
+    run (init_pool n) sched = Some p ->
+    held p = [] ->
+    acquiring p = 0%nat ->
+    returning p = 0%nat ->
+    Datatypes.length (avail p) = n /\
+    permits p = n /\ Permutation.Permutation (avail p) (seq 0 n).
+Proof. exact all_returned_reachable. Qed.
+
+Theorem C19_blocks_only_if_empty :
+  forall p : pool,
+    PInv p ->
+    acquiring p = 0%nat -> returning p = 0%nat -> step p AcqPermit = SDisabled <-> avail p = [].
+Proof. exact quiescent_acquire_blocks_iff_empty. Qed.
+
+Theorem C19_release_batch :
+  forall (ids : list bufid) (p : pool),
+    PInv p ->
+    exists ret : list bufid,
+      avail (release_batch p ids) = avail p ++ ret /\
+      permits (release_batch p ids) = (permits p + Datatypes.length ret)%nat /\
+      NoDup ret /\
+      (forall i : bufid,
+       In i ret <->
+       (exists n : nat,
+          hlookup i (held p) = Some (HFrozen n) /\ (1 <= n <= count_occ Nat.eq_dec ids i)%nat)) /\
+      (forall i : bufid,
+       hlookup i (held (release_batch p ids)) =
+       after_release (hlookup i (held p)) (count_occ Nat.eq_dec ids i)).
+Proof. exact release_batch_spec. Qed.
+
+Theorem C19_bucket_choice :
+  forall (bs : list (N * nat)) (size : N),
+    (forall i : nat, choose_bucket bs 0 size None = Some (i, false) <-> first_free_fit bs size i) /\
+    (forall i : nat,
+     choose_bucket bs 0 size None = Some (i, true) <-> no_free_fit bs size /\ last_fit bs size i) /\
+    (choose_bucket bs 0 size None = None <-> none_fit bs size).
+Proof. exact choose_bucket_spec. Qed.
+
+Theorem C19_waits_although_buffer_available_refuted :
+  exists (bs bs' : list (N * nat)) (size : N) (i j : nat),
+      choose_bucket bs 0 size None = Some (i, true) /\
+      Datatypes.length bs' = Datatypes.length bs /\
+      map fst bs' = map fst bs /\
+      snd (bkt bs' i) = 0%nat /\
+      j <> i /\
+      fits size (bkt bs' j) /\
+      has_free (bkt bs' j) /\ choose_bucket bs' 0 size None = Some (j, false).
+Proof. exact bucketed_waits_although_buffer_available_refuted. Qed.
